@@ -164,6 +164,9 @@ func strSliceEq(a, b []string) bool {
 func CheckValues(rr *RealResult, ref *RefResult) string {
 	b := rr.B
 	d := b.D
+	if b.PairErr != "" {
+		return "the parser registered other options than the declaration contains: " + b.PairErr
+	}
 	for _, o := range d.AllOpts() {
 		if o.Kind.IsFunc() {
 			continue
@@ -171,6 +174,9 @@ func CheckValues(rr *RealResult, ref *RefResult) string {
 		want, ok := ref.Vals[o.ID]
 		if !ok {
 			continue
+		}
+		if !b.OptVal[o.ID].IsValid() {
+			return fmt.Sprintf("option %s (%s) of the declaration has no field in the parser built from it", o.ID, o.Display())
 		}
 		got := b.OptVal[o.ID].Interface()
 		if !ValEqual(got, want) {
